@@ -124,6 +124,7 @@ func ghostset(name string, key any, v any) {}
 func ghosthavoc(name string) {}
 func visited(k any) bool { return true }
 func deref[T any](p *T) T { return *p }
+func fieldOf(p any, name string) any { return nil }
 func lockOf(x any) any { return x }
 func ite[T any](c bool, a, b T) T { if c { return a }; return b }
 func buflen(b any) int { return 0 }
@@ -561,8 +562,24 @@ func (w *World) buildPkg(p *Pkg) error {
 				emit(c, allLoc)
 			}
 		}
+		// atcall clauses may name the actual arguments of the call: arg0, arg1, ... (typed any here,
+		// bound to the real values when the clause is evaluated)
+		anyT := types.Universe.Lookup("any").Type()
+		withArgs := append([]localVar{}, allLoc...)
+		for i := 0; i < 4; i++ {
+			nm := fmt.Sprintf("arg%d", i)
+			dup := false
+			for _, lv := range withArgs {
+				if lv.Name == nm {
+					dup = true
+				}
+			}
+			if !dup {
+				withArgs = append(withArgs, localVar{nm, anyT})
+			}
+		}
 		for _, ac := range fc.AtCalls {
-			emit(ac.Clause, allLoc)
+			emit(ac.Clause, withArgs)
 		}
 	}
 	for _, li := range append(append([]LockInvDecl{}, p.Contracts.LockInvs...), p.Contracts.PoolInvs...) {
